@@ -2,7 +2,7 @@
 // checks that the green tree reproduces the text byte for byte, node lengths add up, error spans lie
 // inside the text, and nothing panics. Finds concrete failing inputs for failed Verus obligations.
 use dora_parser::ast::{SyntaxElement, SyntaxNode};
-use dora_parser::{lex, GreenElement, GreenNode, Parser, TokenKind};
+use dora_parser::{compute_line_column, compute_line_starts, lex, GreenElement, GreenNode, Parser, TokenKind};
 use std::sync::Arc;
 use std::time::{Duration, Instant};
 
@@ -118,7 +118,36 @@ fn check_tiling(node: &SyntaxNode, text: &str) -> Result<(), String> {
     Ok(())
 }
 
+/// line/column computation (lib.rs): line starts after LF, CRLF and lone CR; (line, column) of every offset are 1-based, column in bytes
+fn check_line_column(text: &str) -> Result<(), String> {
+    let ls = compute_line_starts(text);
+    let b = text.as_bytes();
+    let mut want: Vec<u32> = vec![0];
+    let mut i = 0;
+    while i < b.len() {
+        if b[i] == b'\n' { want.push(i as u32 + 1); }
+        else if b[i] == b'\r' { if i + 1 < b.len() && b[i + 1] == b'\n' { i += 1; } want.push(i as u32 + 1); }
+        i += 1;
+    }
+    if ls != want { return Err(format!("compute_line_starts = {:?}, the lines of the text start at {:?}", ls, want)); }
+    for off in 0..=text.len() as u32 {
+        let (line, col) = compute_line_column(&ls, off);
+        let k = want.iter().rposition(|&s| s <= off).unwrap();
+        if line != k as u32 + 1 || col != off - want[k] + 1 {
+            return Err(format!("compute_line_column(offset {}) = ({}, {}), expected ({}, {})", off, line, col, k + 1, off - want[k] + 1));
+        }
+    }
+    Ok(())
+}
+
 fn check_text(text: &str) -> Option<String> {
+    if text.len() < 400 {
+        match std::panic::catch_unwind(|| check_line_column(text)) {
+            Ok(Ok(())) => {}
+            Ok(Err(e)) => return Some(e),
+            Err(_) => return Some("panic in compute_line_starts / compute_line_column".to_string()),
+        }
+    }
     let owned = Arc::new(text.to_string());
     let r = std::panic::catch_unwind(|| {
         let lexed = lex(text);
